@@ -300,7 +300,34 @@ func (eng *Engine) runTop(c *FnCtx, fn *ssa.Function, fs *FuncSpec) {
 	}
 	f := &frame{c: c, fn: fn, spec: fs, top: true, prefix: ""}
 	f.params = args
+	// closures: free variables (captured by reference: the free variable is a pointer to the captured cell)
+	var bindings []Val
+	for _, fv := range fn.FreeVars {
+		b := c.freshVal(fv.Name(), fv.Type())
+		c.wellFormed(TTrue, b, st)
+		if b.IsPtr() {
+			c.addFact(Gt(b.L[0], IntT(0)))
+		}
+		bindings = append(bindings, b)
+	}
+	f.bindings = bindings
+	f.vals = map[ssa.Value]Val{}
 	env := f.callEnv(fn, fs, args, nil, st, c.entry)
+	freeLookup := func(cur *State) func(name string) (Val, bool) {
+		return func(name string) (Val, bool) {
+			for i, fv := range fn.FreeVars {
+				if fv.Name() == name {
+					b := bindings[i]
+					if b.IsPtr() {
+						return c.loadPtr(cur, b, elemType(b.T)), true
+					}
+					return b, true
+				}
+			}
+			return Val{}, false
+		}
+	}
+	env.lookup = freeLookup(st)
 	for _, g := range fs.Ghosts {
 		env.vars[g.Name] = c.freshVal("ghost_"+g.Name, eng.resolveType(env.pkg, g.Type))
 	}
@@ -315,24 +342,7 @@ func (eng *Engine) runTop(c *FnCtx, fn *ssa.Function, fs *FuncSpec) {
 		c.addFact(env.evalBool(r.Expr))
 	}
 	eng.assumeGlobals(c, st)
-	// closures: free variables
-	var bindings []Val
-	for _, fv := range fn.FreeVars {
-		b := c.freshVal(fv.Name(), fv.Type())
-		c.wellFormed(TTrue, b, st)
-		bindings = append(bindings, b)
-	}
-	f.bindings = bindings
-	f.vals = map[ssa.Value]Val{}
 	entryEnv := *env
-	entryEnv.lookup = func(name string) (Val, bool) {
-		for i, fv := range fn.FreeVars {
-			if fv.Name() == name {
-				return bindings[i], true
-			}
-		}
-		return Val{}, false
-	}
 	f.spec = fs
 	// lemma uses at entry
 	for _, u := range fs.Uses {
@@ -352,7 +362,7 @@ func (eng *Engine) runTop(c *FnCtx, fn *ssa.Function, fs *FuncSpec) {
 		for k, v := range ghosts {
 			renv.vars[k] = v
 		}
-		renv.lookup = entryEnv.lookup
+		renv.lookup = freeLookup(r.st)
 		for _, u := range fs.Uses {
 			if u.At == "exit" {
 				c.useLemma(u, renv)
